@@ -267,18 +267,32 @@ def rule_residual(facts):
         bad("roles", "cannot map the writer's operands to Residual fields")
         return [rr]
 
-    def sums_of(e, src):
-        """e is a sum over exactly the vector `src` (iterator sum of a per-element cast, or the SIMD wrapping sum)."""
+    def sums_of(e, src, guarded=False):
+        """e is a sum over exactly the vector `src`: an iterator sum (wide accumulator), or the wrapping 32-bit SIMD sum,
+        which is accepted only under a guard `max(src) * block_size < 2^32` (otherwise the cached count wraps and a huge
+        residual reports a tiny size)."""
         e = E.strip_casts(e)
         if e[0] == "case":
-            return all(sums_of(v, src) for _l, v in e[2])
+            sc = E.strip_casts(e[1])
+            g = False
+            if sc[0] == "bin" and sc[1] in ("Lt", "Le") and E.is_c(E.strip_casts(sc[3])) and E.strip_casts(sc[3])[1] <= 2 ** 32 - 1:
+                lhs = E.strip_casts(sc[2])
+                if lhs[0] == "bin" and lhs[1] == "Mul":
+                    parts = [E.strip_casts(lhs[2]), E.strip_casts(lhs[3])]
+                    mx = [p for p in parts if p[0] == "call" and re.search(r"find_max|reduce_max|simd_map_and_reduce", p[1])
+                          and p[2] and p[2][0] == src]
+                    g = bool(mx)
+            ok = True
+            for lab, v in e[2]:
+                ok = ok and sums_of(v, src, guarded=(g and lab == 1))
+            return ok
         if e[0] == "itersum":
             it = e[1]
             while isinstance(it, tuple) and it[0] in ("map", "iter"):
                 it = it[1]
             return it == src
         if e[0] == "call" and re.search(r"wrapping_sum|simd_map_and_reduce", e[1]):
-            return len(e[2]) >= 1 and e[2][0] == src
+            return guarded and len(e[2]) >= 1 and e[2][0] == src
         return False
     fSQ = [f for f in fields if f not in (fQ, fRP) and sums_of(fval[f], fval[fQ])]
     fSRP = [f for f in fields if f not in (fQ, fRP) and sums_of(fval[f], fval[fRP])]
